@@ -81,6 +81,7 @@ type LemmaDef struct {
 	File   string
 	Line   int
 	Uses   []string
+	Trigs  [][]Expr
 }
 
 type AtomicInv struct {
@@ -416,6 +417,19 @@ func (cs *ContractSet) parseBlock(b []rawLine, file, pkg string) error {
 		ld.Name = hf[0]
 		if len(hf) == 3 && hf[1] == "arith" {
 			ld.Arith = hf[2]
+		}
+		for strings.HasPrefix(body, "{") {
+			k := strings.Index(body, "}")
+			var tr []Expr
+			for _, part := range splitTop(body[1:k]) {
+				te, err := parseExpr(strings.TrimSpace(part))
+				if err != nil {
+					return fmt.Errorf("%s:%d: %v", file, head.line, err)
+				}
+				tr = append(tr, te)
+			}
+			ld.Trigs = append(ld.Trigs, tr)
+			body = strings.TrimSpace(body[k+1:])
 		}
 		c, err := mkClause(body, file, head.line)
 		if err != nil {
